@@ -252,7 +252,7 @@ var stringZoo = []string{
 	"日本語 mixed ascii 🙂 and more than thirty-two bytes of text é",
 }
 
-var keyAlphabet = []string{"a", "b", "c", "aa", "x", "foo", "é", "", "with space", "A", "key-1", "d.e", "0", "1", "-1", "<k&>", "k\u2028", " k", "k\t", "k\x00", "~"}
+var keyAlphabet = []string{"a", "b", "c", "aa", "x", "foo", "é", "", "with space", "A", "key-1", "d.e", "0", "1", "-1", "<k&>", "k\u2028", " k", "k\t", "k\x00", "~", "'tis", "users'", "'q'", "tis", "users", "q"}
 
 func draw(t *rapid.T) Case {
 	data := val.Gen(t, val.Cfg{Depth: 4, MaxLen: 4, Keys: keyAlphabet})
